@@ -275,6 +275,9 @@ func c14Check(env *core.Env, ci any) (res core.Result) {
 				if len(r.Errors()) > 12 {
 					res.Labels = append(res.Labels, "rejected_with_>12_errors")
 				}
+				if strings.Contains(r.Out, "circular import") {
+					res.Labels = append(res.Labels, "circular_import_reported")
+				}
 			}
 			continue
 		}
